@@ -114,7 +114,7 @@ func ValidFor(t *rapid.T, entry string) (b []byte, typ int, hot []int) {
 	case "lease.ReadLease2", "lease.NewLease2FromBytes":
 		return model.Fill(40, rapid.Uint64().Draw(t, "seed")), 0, nil
 	case "lease_set.ReadLeaseSet":
-		ls, _ := LeaseSetG(t, "ls").Build()
+		ls, _ := LeaseSetParseG(t, "ls").Build()
 		n := len(ls.Dest.Encode())
 		return ls.Encode(), 0, append(identHot(), n, n+255, n+256, n+256+len(ls.SigKey), n+256+len(ls.SigKey)+1)
 	case "lease_set2.ReadLeaseSet2":
